@@ -260,9 +260,13 @@ class t2incon(object):
         from copy import copy
         # atmosphere blocks:
         default_atm_incons = t2blockincon([1.013e5, 20.])
+        if sourcegeo.atmosphere_type == 0:
+            # (source incons are not necessarily in the same order as the geometry's blocks)
+            sourceatm = sourceinc[sourcegeo.block_name(sourcegeo.layerlist[0].name,
+                                                       sourcegeo.atmosphere_column_name)]
         if geo.atmosphere_type == 0: # single atmosphere block
             atmblk = geo.block_name(geo.layerlist[0].name, geo.atmosphere_column_name)
-            if sourcegeo.atmosphere_type == 0: self[atmblk] = copy(sourceinc[0])
+            if sourcegeo.atmosphere_type == 0: self[atmblk] = copy(sourceatm)
             elif sourcegeo.atmosphere_type == 1:
                 # take average over source column atmosphere incons
                 varsum = np.zeros(len(sourceinc[0].variable))
@@ -277,7 +281,7 @@ class t2incon(object):
                 # broadcast single source atmosphere incons to each column
                 for col in geo.columnlist:
                     blk = geo.block_name(geo.layerlist[0].name, col.name)
-                    self[blk] = copy(sourceinc[0])
+                    self[blk] = copy(sourceatm)
             elif sourcegeo.atmosphere_type == 1:
                 # atmosphere over each column in both source and destination
                 for col in geo.columnlist:
